@@ -5,6 +5,7 @@ import (
 	stdjson "encoding/json"
 	"errors"
 	"fmt"
+	"github.com/jsightapi/jsight-schema-go-library/fs"
 	"strconv"
 	"time"
 
@@ -18,7 +19,7 @@ func init() {
 	ev.Register(&ev.Check{
 		ID:      "C05",
 		Level:   "model_checking",
-		Rule:    "explicit-state BFS over the product (real JSON scanner fed byte-wise through the verif hook) x (reference RFC 8259 PDA), both modes, nesting bounded; in every product state the public Document.Check of the state's shortest history, and of that history followed by EVERY ASCII byte value, is compared with the reference; plus all strings <= L over the 30-class alphabet (pruned only where both sides are dead) compared three ways (library, reference PDA, encoding/json), plus every 1-edit neighbour of a corpus of structured long texts. A case is non-trivial when the reference and the library were both evaluated on a distinct input that is not dead on its first byte.",
+		Rule:    "explicit-state BFS over the product (real JSON scanner fed byte-wise through the verif hook) x (reference RFC 8259 PDA), both modes, nesting bounded; in every product state the public Document.Check of the state's shortest history, and of that history followed by EVERY ASCII byte value, is compared with the reference (fresh document, and a document sharing its file with a document of the other mode that was checked first); plus all strings <= L over the 30-class alphabet (pruned only where both sides are dead) compared three ways (library, reference PDA, encoding/json), plus every 1-edit neighbour of a corpus of structured long texts. A case is non-trivial when the reference and the library were both evaluated on a distinct input that is not dead on its first byte.",
 		Workers: func(tier string) int { return 16 },
 		Run:     run,
 		Replay:  replay,
@@ -50,6 +51,24 @@ func libCheck(input string, trailing bool) (err error) {
 	return json.New("doc", []byte(input)).Check()
 }
 
+// libCheckShared: the same check on a document that shares its fs.File with
+// another document of the OTHER mode, which is checked first. The verdict of a
+// document is a function of its bytes and its own option only.
+func libCheckShared(input string, trailing bool) (err error) {
+	defer func() {
+		if r := recover(); r != nil {
+			err = fmt.Errorf("PANIC: %v", r)
+		}
+	}()
+	f := fs.NewFile("doc", []byte(input))
+	if trailing {
+		_ = json.FromFile(f).Check()
+		return json.FromFile(f, json.AllowTrailingNonSpaceCharacters()).Check()
+	}
+	_ = json.FromFile(f, json.AllowTrailingNonSpaceCharacters()).Check()
+	return json.FromFile(f).Check()
+}
+
 func refVerdict(input string, trailing bool) jsonpda.Verdict {
 	p := jsonpda.New()
 	for i := 0; i < len(input); i++ {
@@ -76,6 +95,10 @@ func modeName(trailing bool) string {
 func compare(c *ev.Ctx, input string, trailing bool, origin string) bool {
 	err := libCheck(input, trailing)
 	libAcc := err == nil
+	if serr := libCheckShared(input, trailing); (serr == nil) != libAcc {
+		c.Violate(fmt.Sprintf("%s;shared-file;%s", modeName(trailing), strconv.Quote(input)),
+			fmt.Sprintf("Document.Check (%s) on %q: %v for a fresh document, but %v for a document made with FromFile on a file that a document of the other mode has just checked [%s]", modeName(trailing), input, err, serr, origin), caseT{modeName(trailing), input})
+	}
 	rv := refVerdict(input, trailing)
 	if err != nil && isPanic(err) {
 		c.Violate("panic;"+modeName(trailing)+";"+strconv.Quote(input), fmt.Sprintf("Document.Check panicked on %q (%s): %v", input, modeName(trailing), err), caseT{modeName(trailing), input})
